@@ -249,6 +249,17 @@ def execute(case):
                                 if gsc.cancelled_caught:
                                     log(ev="get.end", c=c, t=op["ts"][0], n=op["n"], r="gaveup", v=[])
                                     continue
+                            elif op["x"] == "wait" and (case.get("seed", 0) + c) % 3 == 1:
+                                # a second task of the same component asks - a little later - for something nobody ever publishes: two lookups
+                                # are pending through the same component context; the first one must still be woken by its publication
+                                async def decoy():
+                                    await anyio.sleep(0)
+                                    await anyio.sleep(0)
+                                    await get_resource(FalsyObj, "never_published")
+                                async with anyio.create_task_group() as dtg:
+                                    dtg.start_soon(decoy)
+                                    v = await get_resource(T, op["n"])
+                                    dtg.cancel_scope.cancel()
                             elif op["x"] == "wait":
                                 v = await get_resource(T, op["n"])
                             elif op["x"] == "opt":
